@@ -372,6 +372,8 @@ async def component_tree():
             await start_service_task(flusher, "stoppable", teardown_action=lambda: None)
             await start_service_task(flusher, "default action")
             await _quiet(get_resource, A, "first", optional=True)
+            await _quiet(get_resource, C, "first", optional=True)      # optional, satisfied by a factory of a sibling (if it is there yet)
+            await _quiet(get_resource, C, "first")
             get_resource_nowait(B, "prepared")
 
     class Root(Component):
